@@ -8,6 +8,7 @@ package main
 
 import (
 	"bytes"
+	"errors"
 	"fmt"
 	"log/slog"
 	"os"
@@ -92,6 +93,11 @@ func body(stream []byte, display, record, split bool, sizes []int) func(x *mcrt.
 // thread opens the gate - by default as late as possible (when nothing else can
 // run), earlier along the explorer's alternatives.
 func bodyG(stream []byte, display, record, split bool, sizes []int, gated bool) func(x *mcrt.X) {
+	return bodyE(stream, display, record, split, sizes, gated, nil)
+}
+
+// bodyE: the input ends with finalErr instead of io.EOF when that is not nil.
+func bodyE(stream []byte, display, record, split bool, sizes []int, gated bool, finalErr error) func(x *mcrt.X) {
 	return func(x *mcrt.X) {
 		var gate chan struct{}
 		if gated {
@@ -99,7 +105,7 @@ func bodyG(stream []byte, display, record, split bool, sizes []int, gated bool) 
 			mcrt.GoLow("gate-timer", func() { mcrt.Sleep(time.Second); mcrt.Close(gate) })
 		}
 		obs := &obsT{out: &hsink.Sink{Name: "stdout", Split: split, Gate: gate}, sinks: &hsink.Sinks{Split: split},
-			src: &hsink.ChunkReader{Data: stream, Reset: true, Sizes: sizes, EOFWithData: true}, display: display, record: record}
+			src: &hsink.ChunkReader{Data: stream, Reset: true, Sizes: sizes, EOFWithData: true, FinalErr: finalErr}, display: display, record: record}
 		x.Data = obs
 		mcrt.NewDailySink = obs.sinks.New
 		cfg := &jsonconfig.Config{DisplayMessages: display, RecordMessages: record, MessageLogDirectory: "logs"}
@@ -200,7 +206,7 @@ func smallStreams() (map[string][]byte, []string) {
 func propC10() *harness.Prop {
 	return &harness.Prop{
 		ID:             "C10",
-		Rule:           "rtcmfilter.HandleMessages (the shipped function, in-package harness) under the controlled scheduler with harness-owned stdout, record and display writers whose every Write is a scheduling point. Schedule dimension: 9 small streams x {display,record} in {0,1}^2 x every interleaving of main, reader, framing, fan-out and 1-3 writer goroutines and every source chunking (state-key pruning; deviation bound 1/2 where the unbounded pass is cut). Input dimension: every sequence of <=2 (quick) / <=3 (thorough) segments from a 19-entry menu (valid frames, NMEA, UBX, junk with 0xD3, lone D3, bad leaders, truncations, corrupted frames) with display and record on, default schedule. plus scenarios in which single writes to the display log fail, and a stalled-writer scenario (24 distinct frames, the output writer blocks in its first Write until a timer thread lets it go, by default as late as possible). Oracle at quiescence: stdout == concatenation of the valid frames of the sequential framing, record identical, display text == one String() entry per delivered message. Non-trivial = distinct schedule trace",
+		Rule:           "rtcmfilter.HandleMessages (the shipped function, in-package harness) under the controlled scheduler with harness-owned stdout, record and display writers whose every Write is a scheduling point. Schedule dimension: 9 small streams x {display,record} in {0,1}^2 x every interleaving of main, reader, framing, fan-out and 1-3 writer goroutines and every source chunking (state-key pruning; deviation bound 1/2 where the unbounded pass is cut). Input dimension: every sequence of <=2 (quick) / <=3 (thorough) segments from a 19-entry menu (valid frames, NMEA, UBX, junk with 0xD3, lone D3, bad leaders, truncations, corrupted frames) with display and record on, default schedule. plus scenarios in which single writes to the display log fail, and a stalled-writer scenario (24 distinct frames, the output writer blocks in its first Write until a timer thread lets it go, by default as late as possible), and scenarios in which the input ends in a hard read error instead of EOF, with attentive and with stalled writers (every frame read before the failure is still owed). Oracle at quiescence: stdout == concatenation of the valid frames of the sequential framing, record identical, display text == one String() entry per delivered message. Non-trivial = distinct schedule trace",
 		Assumptions:    []string{"dailylogger.New is redirected at build time to an in-memory sink (file naming and rotation belong to the go-tools dependency)", "which segments are 'valid frames as delimited by the framing rules' is taken from the implementation's own sequential framing filtered by the independent IsFrame predicate (differential oracle), as the statement defines", "judged at quiescence; whether the output is complete when the call returns is C11"},
 		Scenarios:      scenariosC10,
 		QuickBudget:    60 * time.Second,
@@ -312,6 +318,22 @@ func scenariosC10(tier string) []*mcrt.Scenario {
 		rcd := rcd
 		scs = append(scs, &mcrt.Scenario{Name: fmt.Sprintf("stalled-writer 24-frames record=%v", rcd), Bound: 1, Horizon: 200000, Prune: true,
 			Body: bodyG(many, false, rcd, false, []int{0}, true), Check: checkC10(many)})
+	}
+	// the input ends in a hard read error (device unplugged) instead of EOF: every
+	// frame whose bytes were read before the failure is still part of the input
+	eio := errors.New("read /dev/ttyACM0: input/output error")
+	for _, sn := range []string{"frame", "frame+frame", "frame+junk+frame"} {
+		for _, gated := range []bool{false, true} {
+			for _, rcd := range []bool{false, true} {
+				stream := streams[sn]
+				scs = append(scs, &mcrt.Scenario{Name: fmt.Sprintf("hard-read-error-at-end stream=%s stalled-writer=%v record=%v", sn, gated, rcd), Bound: bound, Horizon: 50000, Prune: true, Full: true,
+					Body: bodyE(stream, false, rcd, false, nil, gated, eio), Check: checkC10(stream)})
+			}
+		}
+	}
+	for _, rcd := range []bool{false, true} {
+		scs = append(scs, &mcrt.Scenario{Name: fmt.Sprintf("hard-read-error-at-end stalled-writer 24-frames record=%v", rcd), Bound: 1, Horizon: 200000, Prune: true,
+			Body: bodyE(many, false, rcd, false, []int{0}, true, eio), Check: checkC10(many)})
 	}
 	return scs
 }
